@@ -938,6 +938,8 @@ def load_module(path: str, cache: str | None = None) -> Module:
     with open(path) as f:
         mod = parse_module(f.read())
     if cache:
-        with open(cache, "wb") as f:
+        tmp = f"{cache}.{os.getpid()}.tmp"  # written aside and renamed: a concurrent reader never sees a partial pickle
+        with open(tmp, "wb") as f:
             pickle.dump(mod, f, protocol=pickle.HIGHEST_PROTOCOL)
+        os.replace(tmp, cache)
     return mod
